@@ -36,6 +36,7 @@ def worktree(tag):
 def drop(wt):
     sh(["git", "-C", "/repo", "worktree", "remove", "--force", wt])
     shutil.rmtree(wt, ignore_errors=True)
+    shutil.rmtree(os.path.join("/tmp", "verif_alt_" + os.path.basename(wt)), ignore_errors=True)
 
 
 def run_demo(wt, demo):
